@@ -145,7 +145,7 @@ ADD = {
                 text=' breitungPf_eq / tvedtPf_eq / hrackPf_eq: the definitions regenerated from the source text are the model definitions the theorems are about (for every scalar instance, so also for the Float instance evaluated against the implementation).',
                 note=' Translation validation of the regenerated formulas at Float against breitungSORM / tvedtSORM / hrackSORM (1e-11, Tvedt 1e-9). The curvature-extraction model (gradient pull-back, alignment vector, argmax column, Gram-Schmidt, U-space Hessian with the curvature of the marginal maps, conjugation) is compared with the implementation on random normal / lognormal problems at 2e-5; theorems C12p_block_flat (flat limit surface => all entries 0, so SORM = FORM end to end on the model) and C12p_block_symm.'),
     'C13': dict(technique=' + the returned pf as a function of the level list (Subset.pf) with the product theorem',
-                text=' run_shape / C13_pf_product / C13_pf_le_one: every level before the last stored p0 with a positive threshold; when the last level reached the zero threshold with k of N samples in the failure set the returned pf is p0^(m-1) k / N, hence in [0, 1].',
+                text=' run_shape / C13_pf_product / C13_pf_le_one: every level before the last stored p0 with a positive threshold; when the last level reached the zero threshold with k of N samples in the failure set the returned pf is p0^(m-1) k / N, hence in [0, 1]. chain_contract / C13_nested_from_sampler: the contract assumed by the nestedness theorem is derived from the component-wise sampler model of C14 iterated with the domain function of subsetSimulation (a move to a different point is kept iff g < level), so nestedness holds end to end on the two models.',
                 note=' The returned pf is compared with the model product (p0 as the exact binary fraction) at 1e-12.'),
     'C14': dict(technique=' + detailed balance in integral form on sigma-finite state spaces (Mathlib measure theory)',
                 text=' C14c_detailed_balance: for the move part of the kernel of the plain sampler on any sigma-finite state space, with a symmetric proposal density and a target positive on the domain, the probability flow from A to B equals the flow from B to A for all sets A, B.',
